@@ -36,7 +36,7 @@ impl Monitor for C10 {
         if tier == Tier::Sanitizer {
             vec!["windows_checked"]
         } else {
-            vec!["windows_checked", "rx1_offset_in_force", "rx2_override_in_force", "dlchannel_in_force", "rxdelay_in_force", "join_windows_checked", "classc_gap_checked", "fixed_500k_channel", "nb_timing_checked", "async_timing_checked", "remapped_channel_redefined", "refused_rxparamsetup_steps", "nb_clock_upper_half"]
+            vec!["windows_checked", "rx1_offset_in_force", "rx2_override_in_force", "dlchannel_in_force", "rxdelay_in_force", "join_windows_checked", "classc_gap_checked", "fixed_500k_channel", "nb_timing_checked", "async_timing_checked", "remapped_channel_redefined", "refused_rxparamsetup_steps", "nb_clock_upper_half", "rxtiming_rfu_bits_set"]
         }
     }
 
@@ -338,7 +338,12 @@ fn data_case(reg: Reg, front: Front, dslot: Option<usize>, off: Option<u8>, dcla
         2 => rng.range(2, 14) as u8,
         _ => 15,
     };
-    cmds.extend(rx_timing_setup_req(del));
+    // (the upper nibble of the settings octet is RFU: a network that sets bits there still means Del)
+    let rfu = if rng.bool() { (rng.below(16) as u8) << 4 } else { 0 };
+    if rfu != 0 {
+        col.event("rxtiming_rfu_bits_set");
+    }
+    cmds.extend(rx_timing_setup_req(del | rfu));
     let t = link.deliver_mac(&cmds, rng.bool(), rng.bool());
     // RXTimingSetupReq has no status bits: once the downlink is accepted the delay in force is
     // the commanded one (0 and 1 both mean 1 s)
